@@ -136,6 +136,40 @@ class Flow:
             self._mbs = out
         return self._mbs
 
+    def stored_through_ref(self):
+        """Aggregate-built locals L for which this body contains a store `(*r).f.. = v` with r a (copy of a) `&mut L` /
+        `&mut L.g`: the local is mutated in place after its construction."""
+        if getattr(self, "_str", None) is None:
+            out = set()
+            b = self.b
+            for (bb, i, s_) in self.stores:
+                if i == "term":
+                    continue
+                p = s_["place"]
+                if not p["p"] or p["p"][0]["k"] != "deref":
+                    continue
+                r = p["l"]
+                for _ in range(6):
+                    ds = [d for d in self.defs.get(r, []) if d[2] == "assign"]
+                    if len(ds) != 1 or len(self.defs.get(r, [])) != 1:
+                        break
+                    rv = ds[0][3]["rv"]
+                    if rv["k"] in ("ref", "rawptr") and rv.get("mut") and not any(e_["k"] == "deref" for e_ in rv["place"]["p"]):
+                        tgt = rv["place"]["l"]
+                        tds = self.defs.get(tgt, [])
+                        if any(d[2] == "assign" and d[3]["rv"]["k"] == "aggregate" for d in tds) and tgt > b.arg_count:
+                            out.add(tgt)
+                        break
+                    if rv["k"] == "use" and rv["op"]["k"] in ("copy", "move") and not rv["op"]["place"]["p"]:
+                        r = rv["op"]["place"]["l"]
+                        continue
+                    if rv["k"] == "ref" and [e_["k"] for e_ in rv["place"]["p"]] == ["deref"]:
+                        r = rv["place"]["l"]      # reborrow
+                        continue
+                    break
+            self._str = out
+        return self._str
+
     def local_expr(self, local, depth=0):
         key = ("L", local)
         if key in self._memo:
@@ -148,6 +182,9 @@ class Flow:
         sd = self.single_def(local)
         if sd not in (None, "param") and local in self.mut_borrowed_scalars():
             sd = None      # a counter updated through `&mut local`: its value is not its initialiser
+        if sd not in (None, "param") and local in self.stored_through_ref():
+            sd = None      # a struct local some field of which is written through `&mut local` (a budget struct with a
+                           # `take(&mut self)` method read through): its fields are not the initialiser's operands
         sw = self.swapped_locals().get(local) if sd not in (None, "param") else None
         if sw is not None:
             # `let mut l = init; mem::swap(&mut place, &mut l);` -- afterwards l holds what mem::replace(&mut place, init)
@@ -1612,8 +1649,24 @@ def path_const_feasible(body, path):
     pe = PathEval(body, [])
     b = body
     discr_info = {}
+    # values computed by arithmetic (a counter stepped in a loop) are NOT folded: the paths are unrolled a bounded number of
+    # times, so "the counter is still below its bound" would hold on every explored path and hide the exit that real runs take
+    tainted = set()
+
+    def op_tainted(o):
+        return isinstance(o, dict) and o.get("k") in ("copy", "move") and o["place"]["l"] in tainted
     for i, bb in enumerate(path):
         for s in b.stmts(bb):
+            if s["k"] == "assign" and not s["place"]["p"]:
+                rv_ = s["rv"]
+                l_ = s["place"]["l"]
+                arith = rv_["k"] == "binop" and rv_["op"].replace("WithOverflow", "").replace("Unchecked", "") in ("Add", "Sub", "Mul", "Div", "Rem", "Shl", "Shr")
+                dep = any(op_tainted(rv_.get(k_)) for k_ in ("op", "a", "b")) or any(op_tainted(o_) for o_ in rv_.get("ops", [])) or \
+                    (rv_["k"] in ("ref", "discr") and rv_["place"]["l"] in tainted)
+                if arith or dep:
+                    tainted.add(l_)
+                else:
+                    tainted.discard(l_)
             if s["k"] == "assign" and not s["place"]["p"] and s["rv"]["k"] == "discr":
                 discr_info[s["place"]["l"]] = (pe.place_expr(s["rv"]["place"]), s["rv"]["variants"])
             if s["k"] == "assign" and not s["place"]["p"]:
@@ -1623,8 +1676,16 @@ def path_const_feasible(body, path):
         t = b.term(bb)
         if t["k"] == "call" and not t["dest"]["p"]:
             pe.env[t["dest"]["l"]] = pe.call_expr(t, bb)
+        if t["k"] == "call" and not t["dest"]["p"]:
+            # the result of a call is not a constant, and a wrapping/checked step of a tainted value stays tainted
+            if any(op_tainted(a_) for a_ in t["args"]):
+                tainted.add(t["dest"]["l"])
+            else:
+                tainted.discard(t["dest"]["l"])
         if t["k"] == "switch" and i + 1 < len(path):
             d = t["discr"]
+            if op_tainted(d):
+                continue
             dty = d.get("place", {}).get("ty") if d["k"] != "const" else d.get("ty")
             v = const_fold(pe.operand_expr(d))
             if v is None and d["k"] in ("copy", "move") and not d["place"]["p"] and d["place"]["l"] in discr_info:
